@@ -9,7 +9,7 @@ impl BlobHeader {
 // bincode::serialize_into((&mut buf).writer(), &self.header)
 #[verifier::external_body]
 pub fn ser_blob_header_into(buf: &mut BytesMut, h: &BlobHeader) -> (r: Result<(), VErr>)
-    ensures r.is_ok() ==> final(buf)@ == old(buf)@ + blob_header_bytes(*h),
+    ensures r.is_ok() ==> final(buf)@ == old(buf)@ + blob_header_bytes(*h), r.is_err() ==> !is_refusal(r->Err_0),
 { unimplemented!() }
 
 #[verifier::external_body]
